@@ -125,21 +125,21 @@ class Prop(BaseProp):
         # ---------------- indices selections equal the same call on the sub-list
         sub = [sts[i] for i in idx]
         nsel = sum(len(tr[i]) for i in idx)
-        p_idx = ctx.call(ps.spike_train_order_profile, sts, indices=idx, **kw)
+        p_idx = ctx.call(ps.spike_train_order_profile, sts, indices=common.vary_indices(ctx, idx), **kw)
         p_sub = ctx.call(ps.spike_train_order_profile, sub, **kw)
         self.same_disc(ctx, p_idx, p_sub, "indices:order-profile")
-        v_idx = ctx.call(ps.spike_directionality_values, sts, indices=idx, **kw)
+        v_idx = ctx.call(ps.spike_directionality_values, sts, indices=common.vary_indices(ctx, idx), **kw)
         v_sub = ctx.call(ps.spike_directionality_values, sub, **kw)
         if ctx.expect(len(v_idx) == len(v_sub), "indices:directionality-values", "number of arrays %d vs %d" % (len(v_idx), len(v_sub))):
             for q in range(len(v_sub)):
                 common.arr_close(ctx, v_idx[q], np.asarray(v_sub[q]).tolist(), "indices:directionality-values",
                                  "values(list, indices=%r)[%d] vs values(sub-list)[%d]" % (idx, q, q), rel=1e-12)
-        M_idx = np.asarray(ctx.call(ps.spike_directionality_matrix, sts, indices=idx, normalize=False, **kw))
+        M_idx = np.asarray(ctx.call(ps.spike_directionality_matrix, sts, indices=common.vary_indices(ctx, idx), normalize=False, **kw))
         M_sub = np.asarray(ctx.call(ps.spike_directionality_matrix, sub, normalize=False, **kw))
         ctx.expect(M_idx.shape == M_sub.shape and np.allclose(M_idx, M_sub, rtol=0, atol=1e-12), "indices:directionality-matrix",
                    "matrix(list, indices=%r)=%s vs matrix(sub-list)=%s" % (idx, common.short(M_idx.tolist()), common.short(M_sub.tolist())))
         if nsel > 0:
-            f_idx = ctx.call(ps.spike_train_order, sts, indices=idx, **kw)
+            f_idx = ctx.call(ps.spike_train_order, sts, indices=common.vary_indices(ctx, idx), **kw)
             f_sub = ctx.call(ps.spike_train_order, sub, **kw)
             ctx.close(f_idx, f_sub, "indices:spike-train-order", "spike_train_order(list, indices=%r) vs sub-list" % (idx,), rel=1e-12)
 
